@@ -169,6 +169,11 @@ def std_pairings(reg, W=(1, 2), with_subtotals=True, sizes=None):
             configs=conly, quick=2, thorough=2)
     reg.add(Schema("ca_cats_x_items", [C], [("ca_cats", 0), ("ca_items", 0)], weighted=True), W,
             configs=ronly, quick=2, thorough=2)
+    # numeric arrays: rows = array items (counts are the valid counts of each item)
+    NAV = (None, (1, None), (None, 3), (1, 3))
+    num = {"measures": ["mean"], "numarr": NA}
+    reg.add(Schema("numarr_x_cat3", [B3], [("cat", 0)], numeric=dict(num)), (1,), NAV, configs=conly, quick=2, thorough=3)
+    reg.add(Schema("numarr_x_mr", [M], [("mr", 0)], numeric=dict(num)), (1,), NAV, configs=[{}], quick=2, thorough=2)
     reg.add(Schema("cat3_1d", [A3], [("cat", 0)], weighted=True), W, configs=ronly, quick=4, thorough=5)
     reg.add(Schema("mr3_1d", [S.mr("n", 3)], [("mr", 0)], weighted=True), W, configs=[{}], quick=2, thorough=3)
     return reg
